@@ -86,7 +86,10 @@ SPECIAL = {
     "SV_LBRACKET": [("[", None)],
     "SV_ARROW_NAME": [("->p", [2, 1]), ("->prop_1", [2, 6])],
     "IDX_NUM": [("0", None), ("12", None)],
-    "IDX_HEX": [("0x1A", None), ("0b11", None)],
+    "IDX_HEX": [("0x1A", None), ("0Xff", None)],
+    "IDX_BIN": [("0b101", None), ("0B11", None)],
+    "IDX_SEP": [("1_0", None), ("0x1_F", None), ("0b1_1", None)],
+    "IDX_BADCHAR": [("{", []), ("}", []), ("\x01", [])],
     "IDX_VAR": [("$i", None)],
     "IDX_IDENT": [("key", None), ("k_1", None)],
     "IDX_MINUS": [("-", None)],
@@ -111,6 +114,8 @@ def spellings(atom):
         return [(atom[3:], None)]
     if atom.startswith("CH:"):
         return [(atom[3:], None)]
+    if atom.startswith("IDX_OP:"):
+        return [(atom[7:], None)]
     if atom.startswith("CAST:"):
         return [(v, None) for v in CAST_SPELL[atom[5:]]]
     raise KeyError(atom)
